@@ -154,6 +154,11 @@ fn parse_inline_tag(tokens: &[Token]) -> Option<usize> {
             ..
         })
     ) {
+        // An unterminated tag (no closing brace before the end of the line) is not a tag.
+        if cursor >= tokens.len() {
+            return None;
+        }
+
         cursor += 1;
     }
 
